@@ -151,10 +151,15 @@ def streams(ctx, res):
             "note": "every process run starts with all threads released together before any request has been made (first-request race); the first-request family adds fresh processes with staggered / leader / random / unsynchronised starts against a slow, piecewise seeding call, every buffer identified under the delivered key"}
 
 
+import sys as _sys  # noqa: E402
+_sys.path.insert(0, os.path.dirname(os.path.abspath(__file__)))
+import _prng_common as _pc  # noqa: E402
+
 PROP = {
-    "streams": streams,
+    "streams": streams, "translators": _pc.translators_prng,
     "rule": "first-request family (start of the process's history): 32 (thorough 160) fresh unsanitised processes, T in {2,3,4,6,8,12,16} threads whose FIRST requests start together / linearly staggered / one leader then the rest / at random delays / unsynchronised, against a harness randombytes that is SLOW (waits 0-5 ms, then delivers the 32 key bytes in pieces of 32/16/8/4/1 bytes 60-600 us apart; staggers chosen relative to that duration; some immediate), 1-5 requests per thread of lengths 8,9,64,100,1000,16,3,65,128,2,63,32,1,256,511; EVERY returned buffer is a driver line checked against the executable Salsa20 specification (Spec/Salsa20.lean) under the key randombytes delivered and the nonce identified; a buffer that is not is looked up under the all-zero key and the 31 partially written keys and reported with the key it matches; then the history (nonces 0..N-1 each once, one seeding). Then boundary bursts (position in the process's history): the main thread advances the generator with counted silent requests to N0 = k*2^b - d (b = 8, 16, 24 black box, really performed, up to 17 M requests per boundary; b = 32..56 and the wrap 2^64 white box by presetting the static nonce, when it exists), probes (must be nonce N0-1), then T = 4/8/16 threads are released so that their N = T*R requests straddle the carry; blocks identified among the reference keystreams of [N0-1-24, N0+N+24] and of the window shifted by +-2^b, +-2^(b-8); history must be N0-1..N0+N-1 each once; repeated per boundary (quick: 7 x 2^24 - measured single-burst detection of seeded change C18-2 0.45-0.78 - thorough 48). Then each run = one process: T in {2,3,4,8,16} (thorough 2..16) threads released together before ANY request, 200-300 (thorough 800) requests per thread of lengths 8,1,64,100,1000,3,16,65,128,2,63 from /repo's fastrandombytes (fixed key); every returned block identified among portable-C Salsa20 reference keystreams of nonces 0..N+15 (cross-checked against the assembly), short blocks by maximum matching; the Lean driver checks per run: nonces = {0..N-1} each once, per-thread increasing, one seeding, zero TSan reports; then one FastGaussianNoise object shared by threads calling getNoise while others sample uniform/ZO/hwt/bounded/gaussian polynomials; distinct = distinct runs",
     "trusted_base": _props.COMMON_TB + [
+        "the interleaving model's assumption that every access to init / nonce and every write of key happens with the mutex held, and that the stream call reads key outside it, is no longer only an assumption: it is regenerated from the C++ text (Generated/PrngAst.lean: frb_accesses) and checked by the kernel on every run (Properties/C13Ast.lean: init_nonce_guarded, key_writes_guarded, unguarded_is_stream_key_read, accesses_match_step_model); " + _pc.PRNG_AST_TB,
         "PARTIAL: the theorems are about the interleaving model of Model/Prng18.lean (each line of the request = one atomic step; the seeding step split into the call of randombytes, one write per delivered piece of the key - any number of pieces - and the write of the flag, in either order; sequentially consistent memory, std::mutex = an atomic test-and-set that is enabled only when free); that the compiled code is such an interleaving is not proved; real schedules are observed under ThreadSanitizer",
         "block identification (the search for the nonce) is done in C++ (harness/conc18.cpp: portable Salsa20/20 reference, cross-checked against the repository's assembly called directly); in the first-request family the identification of every buffer is re-checked by the driver against the executable Lean Salsa20 (Spec/Salsa20.lean, C13's specification), in the long TSan runs and boundary bursts it is not; a block is identified with the (nonce, key) it was generated from",
         "first-request family: timing is chosen, not controlled - the slow harness randombytes widens the seeding window to milliseconds and the starts are spread over it, but which thread seeds and which interleaving occurs is the machine's choice (measured on seeded change C18-3: 23-28 of the 32 processes of a quick run report it, 10 runs of 10; 0 of 320 on the unchanged tree)",
